@@ -50,6 +50,11 @@ var c08rejected = []string{
 	`make-array x := make([3]int, 3); return fmt.Sprint(x)`,
 	`slice3-string s := "abc"; lo, hi := 0, 1; return s[lo:hi:hi]`,
 	`negative-const-index s := []int{1}; return fmt.Sprint(s[-1])`,
+	`make-const-uint64-overflow const k uint64 = 1 << 63; s := make([]int, k); return fmt.Sprint(len(s))`,
+	`make-const-negative const k int64 = -1; s := make([]int, k); return fmt.Sprint(len(s))`,
+	`make-const-len-gt-cap s := make([]int, 3, 2); return fmt.Sprint(len(s))`,
+	`index-const-uint64-overflow s := []int{1}; const k uint64 = 1<<64 - 1; return fmt.Sprint(s[k])`,
+	`place-const-uint-overflow s := []int{1}; const k uint = 1 << 63; s[k] = 2; return fmt.Sprint(s)`,
 }
 
 var c08rich = []c08richGen{
